@@ -403,6 +403,7 @@ def run(ctx):
     mapping_before_use(ctx)
     _local_map_keys_agree(ctx)
     _global_flag_survives_losing(ctx)
+    _module_search_includes_the_first_index(ctx)
 
 def mapping_before_use(ctx):
     """R13.5: merge_from translates every index of an incoming record with `remap`.  A record can refer to a shared type
@@ -567,3 +568,63 @@ def _global_flag_survives_losing(ctx):
            "the F_global bit this type had is lost when the other definition wins")
     we = [y for y in f.walk() if y.get("k") == "bin" and y.get("op") == "|=" and (field_of(strip_casts(peel(y["x"]))) or "").endswith("::_flags") and reads_global_of(y["y"], False)]
     ctx.ob("R13.7", "merge_with|we-win|other-global-bit-added", bool(we), f.loc(we[0]) if we else f.loc(), "`_flags |= other._flags & F_global` on the branch that keeps this definition")
+
+
+def _module_search_includes_the_first_index(ctx):
+    """R13.8: every module owns the index range [first_index, next_index).  binary_search_module(begin, end, i) finds the
+    owner of i as the LAST module whose first_index is <= i; it keeps `first_index[begin] <= i` and may move `begin` up to
+    `mid` exactly when `first_index[mid] <= i` - equality included: i == first_index[mid] is the first entity of that
+    module.  (Seed S10-C13: `<` instead of `<=`; the first wrapper of every module but the first resolved to the
+    preceding module and got a null function pointer.)"""
+    from . import gates as G
+    db = ctx.db
+    ctx.rule("R13.8", "in binary_search_module the recursive call that continues with (mid, end) is taken exactly where `_modules[mid]->first_index <= key`, the one with (begin, mid) where it is `> key`")
+    f = db.fn("InterrogateDatabase::binary_search_module")
+    ps = f.params or []
+    if len(ps) < 3:
+        ctx.broken("R13.8: unexpected signature of binary_search_module")
+        return
+    p_begin, p_end, p_key = ps[0]["d"], ps[1]["d"], ps[2]["d"]
+    first_locals = set()
+    for y in f.walk():
+        if y.get("k") == "decls":
+            for dd in y["d"]:
+                if dd.get("init") is not None and any(z.get("k") == "mem" and (z.get("n") or "").endswith("::first_index") for z in walk(dd["init"])):
+                    first_locals.add(dd["d"])
+
+    def is_first(n):
+        n = strip_casts(peel(n)) if n is not None else None
+        return n is not None and ((local_ref(n) or {}).get("d") in first_locals or (n.get("k") == "mem" and (n.get("n") or "").endswith("::first_index")))
+
+    def rel(want):
+        def holds(atom, truth):
+            ca = G.cmp_atom(atom)
+            if not ca:
+                return False
+            op, u, v = ca
+            op = op if truth else G.NEG[op]
+            if is_first(v) and (local_ref(u) or {}).get("d") == p_key:
+                op, u, v = G.SWAP[op], v, u
+            if not (is_first(u) and (local_ref(v) or {}).get("d") == p_key):
+                return False
+            return op == want
+        return holds
+    n = 0
+    for c in f.walk():
+        if not (c.get("k") == "call" and c.get("f") == f.name and len(c.get("a", [])) >= 3):
+            continue
+        a0, a1 = local_ref(c["a"][0]), local_ref(c["a"][1])
+        if a1 is not None and a1.get("d") == p_end and a0 is not None and a0.get("d") != p_begin:
+            side, want = "continues-right", "<="
+        elif a0 is not None and a0.get("d") == p_begin:
+            side, want = "continues-left", ">"
+        else:
+            continue
+        n += 1
+        e = G.edges_where(f, rel(want))
+        wrong = G.edges_where(f, rel("<" if want == "<=" else ">="))
+        ok = bool(e) and G.gated(f, c, e) and not (wrong and G.gated(f, c, wrong) and not e)
+        ctx.ob("R13.8", "binary_search_module|%s|first_index %s key" % (side, want), ok, f.loc(c),
+               "the search %s exactly where first_index[mid] %s key" % (side.replace("-", " "), want) if ok else
+               "the search %s under a different relation than first_index[mid] %s key" % (side.replace("-", " "), want))
+    ctx.floor("R13.8", "recursive calls of binary_search_module", n, 2)
